@@ -82,6 +82,9 @@ def gen_pool_plan(rng, tier, with_shutdown=True):
     p.update(strategy=gen_strategy(rng), line_p=rng.choice([0, 0, 0.005]), points=rng.choice([0, 2, 4]), time_jump_p=rng.choice([0, 0, 0.05]))
     if p.get('saturate'):
         p['line_p'] = rng.choice([0.01, 0.05, 0.2])
+    if rng.random() < 0.35:
+        p['session_keyspace'] = 'ks1'
+        p['use_delay'] = rng.choice([0.0, 0.02, 0.1, 0.4])
     return p
 
 
